@@ -23,8 +23,10 @@ package flood
 import (
 	"bufio"
 	"encoding/json"
+	"context"
 	"fmt"
 	"io"
+	"log/slog"
 	"math/rand"
 	"net"
 	"os"
@@ -32,6 +34,7 @@ import (
 	"sort"
 	"strconv"
 	"strings"
+	"sync"
 	"testing"
 	"time"
 
@@ -160,6 +163,10 @@ func zzvRealRoute(id string) zzvRoute {
 	if err != nil || k < 1 {
 		panic("zzv: bad route id " + id)
 	}
+	if zzvMix == "fwd" { // only port-forward endpoints, with long routing keys and long targets
+		return zzvRoute{kind: "fwd", key: fmt.Sprintf("zzv-forward-endpoint-with-a-long-routing-key-%06d", k),
+			target: fmt.Sprintf("backend-%06d.some-internal.long-host-name.zzv.example.org:%d", k, 10000+k)}
+	}
 	switch k % 3 {
 	case 1:
 		return zzvRoute{kind: "cidr", cidr: routing.MustParseCIDR(fmt.Sprintf("10.%d.%d.0/24", 77+k/250, k%250))}
@@ -176,11 +183,15 @@ func zzvRealRoute(id string) zzvRoute {
 		}
 		return zzvRoute{kind: "dom", dom: d}
 	default:
+		if zzvMix == "long" { // long keys and targets as well
+			return zzvRoute{kind: "fwd", key: fmt.Sprintf("zzv-forward-endpoint-with-a-long-routing-key-%06d", k),
+				target: fmt.Sprintf("backend-%06d.some-internal.long-host-name.zzv.example.org:%d", k, 10000+k)}
+		}
 		return zzvRoute{kind: "fwd", key: fmt.Sprintf("zzv-fwd-%d", k), target: fmt.Sprintf("127.0.0.1:%d", 1000+k)}
 	}
 }
 
-var zzvMix = "" // "", "short", "long": see zzvRealRoute
+var zzvMix = "" // "", "short", "long", "fwd": see zzvRealRoute
 
 func (r zzvRoute) real() string {
 	switch r.kind {
@@ -226,6 +237,16 @@ type zzvNet struct {
 	tAge    time.Time
 	hopsSet bool // FloodConfig has a MaxHops field and it was set
 
+	// scheduling points inside a call of the flooder (the harness is the flooder's PeerSender and Logger):
+	// peerHook runs once when node peerHookNode takes its list of peers, logHook once when logHookNode logs;
+	// frames sent while `diverted` is set are collected there instead of in `sent`
+	mu           sync.Mutex
+	peerHook     func()
+	peerHookNode string
+	logHook      func()
+	logHookNode  string
+	diverted     *[]*zzvFrame
+
 	// bookkeeping for the verdict predicates (mirrors the ghost variables of the spec)
 	procCnt  map[string]int // node|o|seq -> times the seen check was passed in the current epoch
 	fwdCnt   map[string]int // node|peer|o|seq
@@ -261,7 +282,28 @@ func (s *zzvSender) GetPeerIDs() []identity.AgentID {
 		}
 	}
 	s.net.rng.Shuffle(len(ids), func(i, j int) { ids[i], ids[j] = ids[j], ids[i] })
+	if h := s.net.peerHook; h != nil && s.net.peerHookNode == s.self {
+		s.net.peerHook = nil
+		h() // something happens right after the flooder has taken its snapshot of the peers
+	}
 	return ids
+}
+
+// zzvLogHandler is the flooder's logger: every record is a scheduling point.
+type zzvLogHandler struct {
+	nw   *zzvNet
+	node string
+}
+
+func (h *zzvLogHandler) Enabled(context.Context, slog.Level) bool { return true }
+func (h *zzvLogHandler) WithAttrs([]slog.Attr) slog.Handler      { return h }
+func (h *zzvLogHandler) WithGroup(string) slog.Handler           { return h }
+func (h *zzvLogHandler) Handle(context.Context, slog.Record) error {
+	if f := h.nw.logHook; f != nil && h.nw.logHookNode == h.node {
+		h.nw.logHook = nil
+		f()
+	}
+	return nil
 }
 
 // SendToPeer does what peer.Manager.SendToPeer + Connection.WriteFrame do: unknown peer -> error, the frame is
@@ -290,8 +332,14 @@ func (s *zzvSender) SendToPeer(peerID identity.AgentID, frame *protocol.Frame) e
 		zf.abs = s.net.absMsg(s.self, dst, adv)
 	}
 	k := s.self + ">" + dst
+	s.net.mu.Lock()
 	s.net.q[k] = append(s.net.q[k], zf)
-	s.net.sent = append(s.net.sent, zf)
+	if s.net.diverted != nil {
+		*s.net.diverted = append(*s.net.diverted, zf)
+	} else {
+		s.net.sent = append(s.net.sent, zf)
+	}
+	s.net.mu.Unlock()
 	return nil
 }
 
@@ -310,6 +358,7 @@ func zzvNewNet(names []string, exit map[string][]string, hops map[string]int, rn
 		cfg := DefaultFloodConfig()
 		cfg.SeenCacheTTL = time.Hour // expiry is an explicit step
 		cfg.LocalDisplayName = "zzv-" + name
+		cfg.Logger = slog.New(&zzvLogHandler{nw: nw, node: name})
 		// the hop limit: a field of the flood configuration that the agent fills from routing.max_hops
 		if fv := reflect.ValueOf(&cfg).Elem().FieldByName("MaxHops"); fv.IsValid() && fv.CanSet() && fv.Kind() == reflect.Int {
 			fv.SetInt(int64(n.hops))
@@ -528,11 +577,16 @@ func (nw *zzvNet) deliver(src, dst string, i int, keep bool) (res string, fr *zz
 	if !keep {
 		nw.q[k] = append(append([]*zzvFrame{}, nw.q[k][:i]...), nw.q[k][i+1:]...)
 	}
-	n := nw.nodes[dst]
 	nw.sent = nil
+	return nw.handle(src, dst, fr, &nw.sent), fr
+}
+
+// handle hands one frame to its receiver; *out are the frames the call put on the wire.
+func (nw *zzvNet) handle(src, dst string, fr *zzvFrame, out *[]*zzvFrame) (res string) {
+	n := nw.nodes[dst]
 	adv, err := protocol.DecodeRouteAdvertise(fr.raw.Payload)
 	if err != nil {
-		return "undecodable", fr
+		return "undecodable"
 	}
 	wasSeen := n.f.HasSeen(adv.OriginAgent, adv.Sequence)
 	key := fmt.Sprintf("%s|%d", nw.name(adv.OriginAgent), adv.Sequence)
@@ -545,7 +599,7 @@ func (nw *zzvNet) deliver(src, dst string, i int, keep bool) (res string, fr *zz
 			nw.pred("C11", "processed-twice", dst+" passed the seen check for "+key+" twice while the cache entry was live", nil)
 		}
 	}
-	for _, f := range nw.sent {
+	for _, f := range *out {
 		if f.derr != nil {
 			continue
 		}
@@ -567,7 +621,7 @@ func (nw *zzvNet) deliver(src, dst string, i int, keep bool) (res string, fr *zz
 	default:
 		res = "dropped" // seen-by / loop / hop limit: not distinguishable from outside
 	}
-	return res, fr
+	return res
 }
 
 func (nw *zzvNet) findFrame(m zzvMsg) int {
@@ -724,6 +778,29 @@ func (nw *zzvNet) checkState(linkCount int) {
 			reachOK = false
 		}
 	}
+	distFrom := map[string]map[string]int{} // origin -> agent -> hops in the graph of connected links
+	dist := func(o, a string) int {
+		d, ok := distFrom[o]
+		if !ok {
+			d = map[string]int{o: 0}
+			todo := []string{o}
+			for len(todo) > 0 {
+				x := todo[0]
+				todo = todo[1:]
+				for _, y := range nw.nbrs(x) {
+					if _, seen := d[y]; !seen {
+						d[y] = d[x] + 1
+						todo = append(todo, y)
+					}
+				}
+			}
+			distFrom[o] = d
+		}
+		if v, ok := d[a]; ok {
+			return v
+		}
+		return 1 << 30
+	}
 	for _, name := range nw.names {
 		n := nw.nodes[name]
 		ents, problems := nw.table(n)
@@ -746,6 +823,14 @@ func (nw *zzvNet) checkState(linkCount int) {
 			// C15
 			if len(e.Path) > n.hops {
 				nw.pred("C15", "stored-beyond-limit", fmt.Sprintf("%s (max_hops %d) stores %s", name, n.hops, e.key()), map[string]any{"node": name, "entry": e})
+			}
+			// whatever the recorded path says: while no link was ever lost every way from the origin is at least as long
+			// as the distance in the graph of connected links
+			if _, known := nw.nodes[e.O]; known && !nw.everDisc {
+				if d := dist(e.O, name); d > n.hops {
+					nw.pred("C15", "stored-beyond-limit", fmt.Sprintf("%s (max_hops %d) is %d hops from %s and stores %s", name, n.hops, d, e.O, e.key()),
+						map[string]any{"node": name, "entry": e, "distance": d})
+				}
 			}
 			// C12: next hop is a peer, the path is a chain of links ending at the origin, a stream reaches the origin
 			if !nw.everDisc && len(nw.gone) == 0 {
@@ -1075,7 +1160,9 @@ func (tr *zzvTracer) ev(rec map[string]any) {
 }
 
 // stateOf is the projected state of one agent after a call, plus the frames the call put on the wire.
-func (nw *zzvNet) stateOf(node string) map[string]any {
+func (nw *zzvNet) stateOf(node string) map[string]any { return nw.stateOfWith(node, nw.sent) }
+
+func (nw *zzvNet) stateOfWith(node string, frames []*zzvFrame) map[string]any {
 	n := nw.nodes[node]
 	ents, _ := nw.table(n)
 	if ents == nil {
@@ -1088,7 +1175,7 @@ func (nw *zzvNet) stateOf(node string) map[string]any {
 	}
 	n.f.mu.RUnlock()
 	sent := []any{}
-	for _, f := range nw.sent {
+	for _, f := range frames {
 		if f.derr != nil {
 			sent = append(sent, map[string]any{"src": f.src, "dst": f.dst, "o": "UNDECODABLE", "seq": 0, "path": []string{}, "sb": []string{}, "rs": []zzvRM{}})
 		} else {
@@ -1099,12 +1186,14 @@ func (nw *zzvNet) stateOf(node string) map[string]any {
 }
 
 // chunksOf groups the frames of the current step that carry the node's own routes, by sequence number.
-func (nw *zzvNet) chunksOf(node string, lo, hi uint64) [][]string {
+func (nw *zzvNet) chunksOf(node string, lo, hi uint64) [][]string { return nw.chunksOfIn(nw.sent, node, lo, hi) }
+
+func (nw *zzvNet) chunksOfIn(frames []*zzvFrame, node string, lo, hi uint64) [][]string {
 	out := [][]string{}
 	for s := lo + 1; s <= hi; s++ {
 		var ids []string
 		got := false
-		for _, f := range nw.sent {
+		for _, f := range frames {
 			if f.derr == nil && f.abs.O == node && f.abs.Seq == s && !got {
 				got = true
 				for _, x := range f.abs.Rs {
@@ -1174,6 +1263,106 @@ func (nw *zzvNet) tDeliver(tr *zzvTracer, src, dst string, i int, keep bool) str
 	tr.ev(map[string]any{"ev": "Deliver", "src": m.Src, "dst": m.Dst, "o": m.O, "seq": m.Seq, "path": m.Path, "sb": m.Sb, "rs": m.Rs,
 		"dup": keep, "res": res, "st": nw.stateOf(dst)})
 	return res
+}
+
+func (nw *zzvNet) logDeliver(tr *zzvTracer, fr *zzvFrame, keep bool, res string, st map[string]any) {
+	m := fr.abs
+	tr.ev(map[string]any{"ev": "Deliver", "src": m.Src, "dst": m.Dst, "o": m.O, "seq": m.Seq, "path": m.Path, "sb": m.Sb, "rs": m.Rs,
+		"dup": keep, "res": res, "st": st})
+}
+
+// tDeliverDuringConnect: while node n is inside HandleRouteAdvertise for queued frame i of src>n - right after it has
+// taken the list of its peers for forwarding - the link n-p comes up and n's connect handler replays n's table to p
+// (in the agent these run on different goroutines).  Whatever the interleaving, p must get the announcement by
+// the forward or by the replay: the execution must equal Deliver; Connect; Replay.
+func (nw *zzvNet) tDeliverDuringConnect(tr *zzvTracer, src, n string, i int, p string) {
+	fired := false
+	var replaySent []*zzvFrame
+	var ctrBefore, lo, hi uint64
+	doConnect := func() {
+		fired = true
+		ctrBefore = nw.nodes[n].mgr.GetCurrentSequence()
+		nw.connect(n, p)
+		nw.diverted = &replaySent
+		lo = nw.nodes[n].mgr.GetCurrentSequence()
+		nw.nodes[n].f.SendFullTable(nw.nodes[p].id)
+		hi = nw.nodes[n].mgr.GetCurrentSequence()
+		nw.diverted = nil
+		delete(nw.pend, n+">"+p)
+	}
+	nw.peerHook, nw.peerHookNode = doConnect, n
+	res, fr := nw.deliver(src, n, i, false)
+	nw.peerHook = nil
+	deliverSent := nw.sent
+	if !fired { // the frame was not forwarded (seen / dropped / undecodable): the connect simply follows
+		ctrBefore = nw.nodes[n].mgr.GetCurrentSequence()
+	}
+	if res == "undecodable" || fr.derr != nil {
+		tr.ev(map[string]any{"ev": "Undecodable", "src": src, "dst": n, "err": fmt.Sprint(fr.derr)})
+		nw.pred("C06", "undecodable", fmt.Sprintf("%s cannot decode an announcement sent by %s: %v", n, src, fr.derr), nil)
+	} else {
+		st := nw.stateOfWith(n, deliverSent)
+		st["ctr"] = ctrBefore
+		nw.logDeliver(tr, fr, false, res, st)
+	}
+	if !fired {
+		doConnect()
+	}
+	tr.ev(map[string]any{"ev": "Connect", "l": []string{n, p}})
+	tr.ev(map[string]any{"ev": "Replay", "n": n, "p": p, "own": nw.chunksOfIn(replaySent, n, lo, hi), "st": nw.stateOfWith(n, replaySent)})
+}
+
+// tDeliverTwoCopies: two copies of one announcement, from two peers, are handled by node dst at the same time (every
+// peer connection has its own reader goroutine): the second call starts when the first one logs for the first time.
+// Exactly one of them may process and forward the announcement.
+func (nw *zzvNet) tDeliverTwoCopies(tr *zzvTracer, t testing.TB, dst, src1 string, i1 int, src2 string, i2 int) {
+	fr1, fr2 := nw.q[src1+">"+dst][i1], nw.q[src2+">"+dst][i2]
+	for _, x := range []struct {
+		src string
+		fr  *zzvFrame
+	}{{src1, fr1}, {src2, fr2}} {
+		k := x.src + ">" + dst
+		for j, f := range nw.q[k] {
+			if f == x.fr {
+				nw.q[k] = append(append([]*zzvFrame{}, nw.q[k][:j]...), nw.q[k][j+1:]...)
+				break
+			}
+		}
+	}
+	var sent1, sent2 []*zzvFrame
+	res2, ran2 := "", false
+	nw.logHook, nw.logHookNode = func() {
+		ran2 = true
+		done := make(chan struct{})
+		nw.diverted = &sent2
+		go func() {
+			defer close(done)
+			res2 = nw.handle(src2, dst, fr2, &sent2)
+		}()
+		select {
+		case <-done:
+		case <-time.After(5 * time.Second):
+			t.Fatalf("zzv: a second HandleRouteAdvertise call blocks while the first one is logging (lock held while logging?)")
+		}
+		nw.inCall = dst
+		nw.diverted = &sent1
+	}, dst
+	nw.diverted = &sent1
+	res1 := nw.handle(src1, dst, fr1, &sent1)
+	nw.diverted = nil
+	nw.logHook = nil
+	if !ran2 { // the first call never logged: the second copy simply follows
+		nw.diverted = &sent2
+		res2 = nw.handle(src2, dst, fr2, &sent2)
+		nw.diverted = nil
+	}
+	if res1 == "new" && res2 == "new" {
+		nw.pred("C11", "processed-twice", fmt.Sprintf("%s processed and forwarded %s#%d twice: the copies from %s and %s were handled at the same time",
+			dst, fr1.abs.O, fr1.abs.Seq, src1, src2), nil)
+	}
+	// the copy that was not processed changed nothing, so the final state is the state after either event
+	nw.logDeliver(tr, fr1, false, res1, nw.stateOfWith(dst, sent1))
+	nw.logDeliver(tr, fr2, false, res2, nw.stateOfWith(dst, sent2))
 }
 
 func zzvNullTracer() *zzvTracer { return &zzvTracer{w: bufio.NewWriter(io.Discard)} }
@@ -1262,8 +1451,59 @@ func TestZZVFloodTrace(t *testing.T) {
 	traces := zzvEnvInt("ZZV_TRACES", 40)
 	ops := zzvEnvInt("ZZV_OPS", 60)
 	maxHopsMode := os.Getenv("ZZV_HOPS") // "" = 16 everywhere, "small" = random small limits
-	totPreds, totSteps := 0, 0
+	totPreds, totSteps, concOps := 0, 0, 0
 	var sample []string
+	// scripted executions with the two concurrent situations (every run, a few variants)
+	for v := 0; v < 6; v++ {
+		exit := map[string][]string{}
+		if v%2 == 1 {
+			exit["a"] = []string{"r1", "r2", "r3"}
+		}
+		hops := map[string]int{"a": 16, "b": 16, "c": 16, "d": 16}
+		nw := zzvNewNet([]string{"a", "b", "c", "d"}, exit, hops, rng)
+		if v < 3 {
+			// triangle: the copies of a's announcement from a and from b reach c at the same time
+			for _, l := range [][2]string{{"a", "b"}, {"b", "c"}, {"a", "c"}, {"c", "d"}} {
+				nw.up[zzvLinkKey(l[0], l[1])] = true
+			}
+			nw.reset(tr, zzvAll)
+			nw.tAnnounce(tr, "a")
+			nw.tDeliver(tr, "a", "b", 0, false)
+			if len(nw.q["a>c"]) != 1 || len(nw.q["b>c"]) != 1 {
+				t.Fatalf("zzv: scripted scenario: expected one frame on a>c and b>c, have %d and %d", len(nw.q["a>c"]), len(nw.q["b>c"]))
+			}
+			if v == 2 {
+				nw.tDeliverTwoCopies(tr, t, "c", "b", 0, "a", 0)
+			} else {
+				nw.tDeliverTwoCopies(tr, t, "c", "a", 0, "b", 0)
+			}
+		} else {
+			// line a-b; c connects to b while b handles a's announcement
+			nw.up[zzvLinkKey("a", "b")] = true
+			nw.up[zzvLinkKey("b", "d")] = true
+			nw.reset(tr, zzvAll)
+			nw.tAnnounce(tr, "a")
+			nw.tDeliverDuringConnect(tr, "a", "b", 0, "c")
+			if !nw.drain(tr, 10000) {
+				t.Fatal("zzv: no termination")
+			}
+			if len(nw.learnedSet("c", "a")) != 1+len(exit["a"]) {
+				nw.pred("C12", "not-learned", fmt.Sprintf("c connected to b while b was handling a's announcement: neither the forward nor the table replay gave c the routes of a (c holds %v)",
+					nw.learnedSet("c", "a")), nil)
+			}
+		}
+		concOps++
+		if !nw.drain(tr, 10000) {
+			t.Fatal("zzv: no termination")
+		}
+		nw.checkState(4)
+		for _, p := range nw.preds {
+			p["trace"], p["setup"] = -1-v, "scripted concurrent scenario"
+			zzvEmit("pred", p)
+			totPreds++
+		}
+		nw.stop()
+	}
 	for ti := 0; ti < traces; ti++ {
 		n := 5 + rng.Intn(2)
 		names := zzvAll[:n]
@@ -1299,6 +1539,65 @@ func TestZZVFloodTrace(t *testing.T) {
 			qs := nw.queued()
 			c := rng.Intn(100)
 			switch {
+			case c < 4 && len(qs) > 0 && len(later) > 0:
+				// a link comes up while one of its ends is busy with an announcement
+				li := rng.Intn(len(later))
+				l := later[li]
+				if nw.gone[l[0]+">"+l[1]] || nw.gone[l[1]+">"+l[0]] {
+					break
+				}
+				x := qs[rng.Intn(len(qs))]
+				p := strings.Split(x[0].(string), ">")
+				for _, pick := range qs { // prefer a frame addressed to an end of the link
+					pp := strings.Split(pick[0].(string), ">")
+					if (pp[1] == l[0] || pp[1] == l[1]) && rng.Intn(2) == 0 {
+						x, p = pick, pp
+						break
+					}
+				}
+				if p[1] != l[0] && p[1] != l[1] {
+					break
+				}
+				other := l[0]
+				if p[1] == l[0] {
+					other = l[1]
+				}
+				later = append(later[:li], later[li+1:]...)
+				nw.tDeliverDuringConnect(tr, p[0], p[1], x[1].(int), other)
+				concOps++
+			case c < 8 && len(qs) > 1:
+				// two copies of one announcement reach an agent at the same time
+				type cp struct {
+					src string
+					i   int
+				}
+				groups := map[string][]cp{}
+				var keys []string
+				for _, pick := range qs {
+					pp := strings.Split(pick[0].(string), ">")
+					f := nw.q[pick[0].(string)][pick[1].(int)]
+					if f.derr != nil {
+						continue
+					}
+					k := fmt.Sprintf("%s|%s|%d", pp[1], f.abs.O, f.abs.Seq)
+					dupSrc := false
+					for _, y := range groups[k] {
+						dupSrc = dupSrc || y.src == pp[0]
+					}
+					if !dupSrc {
+						if len(groups[k]) == 1 {
+							keys = append(keys, k)
+						}
+						groups[k] = append(groups[k], cp{pp[0], pick[1].(int)})
+					}
+				}
+				if len(keys) == 0 {
+					break
+				}
+				k := keys[rng.Intn(len(keys))]
+				g := groups[k]
+				nw.tDeliverTwoCopies(tr, t, strings.Split(k, "|")[0], g[0].src, g[0].i, g[1].src, g[1].i)
+				concOps++
 			case c < 12:
 				nw.tAnnounce(tr, names[rng.Intn(n)])
 			case c < 70 && len(qs) > 0:
@@ -1410,7 +1709,8 @@ func TestZZVFloodTrace(t *testing.T) {
 		}
 		nw.stop()
 	}
-	zzvEmit("summary", map[string]any{"traces": traces, "events": tr.n, "steps": totSteps, "preds": totPreds, "sample": sample})
+	zzvEmit("summary", map[string]any{"traces": traces, "events": tr.n, "steps": totSteps, "preds": totPreds, "sample": sample,
+		"concurrent_ops": concOps})
 }
 
 // ---------------------------------------------------------------- C06: large route sets
@@ -1554,4 +1854,63 @@ func TestZZVFloodScale(t *testing.T) {
 		nw.stop()
 	}
 	zzvEmit("summary", map[string]any{"sizes": sizes, "cases": cases, "bad": bad, "events": tr.n})
+}
+
+// ---------------------------------------------------------------- C15: the limit at the wire bound of the path
+
+// TestZZVFloodChain: a chain n000 - n001 - ... longer than max_hops, with max_hops up to 255 (the largest value
+// the configuration accepts): a path or seen-by list of 256 agents does not fit its one-byte count field.  Then a
+// late joiner connects to the last agent that holds the route (table replay with a path at the bound).
+func TestZZVFloodChain(t *testing.T) {
+	tr, done := zzvOpenTrace(t)
+	defer done()
+	rng := rand.New(rand.NewSource(zzvSeed()))
+	N := zzvEnvInt("ZZV_CHAIN", 260)
+	H := zzvEnvInt("ZZV_CHAIN_HOPS", 255)
+	names := make([]string, N+1)
+	hops := map[string]int{}
+	for i := range names {
+		names[i] = fmt.Sprintf("n%03d", i)
+		hops[names[i]] = H
+	}
+	joiner := names[N]
+	nw := zzvNewNet(names, map[string][]string{names[0]: {"r1"}}, hops, rng)
+	for i := 0; i+1 < N; i++ {
+		nw.up[zzvLinkKey(names[i], names[i+1])] = true
+	}
+	nw.reset(tr, names)
+	nw.tAnnounce(tr, names[0])
+	if !nw.drain(tr, 100000) {
+		t.Fatal("zzv: no termination")
+	}
+	nw.checkState(N)
+	holders := 0
+	far := ""
+	for i := 1; i < N; i++ {
+		if len(nw.learnedSet(names[i], names[0])) > 0 {
+			holders++
+			far = names[i]
+		}
+	}
+	// the late joiner connects to the agent exactly max_hops away: the replayed path would have max_hops+1 agents
+	at := names[H]
+	if H >= N {
+		at = names[N-1]
+	}
+	nw.connect(at, joiner)
+	tr.ev(map[string]any{"ev": "Connect", "l": []string{at, joiner}})
+	if !nw.drain(tr, 100000) {
+		t.Fatal("zzv: no termination")
+	}
+	nw.checkState(N)
+	for _, e := range nw.sendErr {
+		nw.pred("C15", "send-failed", "a frame could not be sent: "+e, nil)
+	}
+	for _, p := range nw.preds {
+		p["setup"] = fmt.Sprintf("chain of %d agents, max_hops %d", N, H)
+		zzvEmit("pred", p)
+	}
+	zzvEmit("summary", map[string]any{"chain": N, "maxhops": H, "holders": holders, "farthest": far, "joiner_learned": len(nw.learnedSet(joiner, names[0])),
+		"events": tr.n, "preds": len(nw.preds), "names": names, "traces": 1})
+	nw.stop()
 }
